@@ -4,13 +4,13 @@
 package verifsim
 
 import (
-	mrand "math/rand"
 	"crypto/sha256"
 	"encoding/hex"
 	"encoding/json"
 	"flag"
 	"fmt"
 	"io"
+	mrand "math/rand"
 	"os"
 	"path/filepath"
 	"regexp"
@@ -35,6 +35,7 @@ type Outcome struct {
 	Evals     int // number of cases evaluated by this run (default 1)
 	Events    []string
 	Tagged    map[string][]string // distinct keys counted per tag (e.g. interleavings of one canonical shape)
+	Hung      bool                // the execution hit the wall-clock hang limit: goroutines are stuck, the process must not go on
 	FailPlan  *Plan               // for enumerating scenarios: the single execution that failed (what gets minimised and replayed)
 }
 
@@ -48,7 +49,7 @@ type Scenario struct {
 	Gen   func(r *Rng, tier string, n uint64) *Plan
 	Run   func(t *testing.T, p *Plan) *Outcome
 	// Extra evidence fields computed by the driver from merged probes.
-	Components map[string]string
+	Components  map[string]string
 	Assumptions []string
 }
 
@@ -131,30 +132,30 @@ type WorkerViolation struct {
 }
 
 type WorkerResult struct {
-	Property  string            `json:"property"`
-	Worker    int               `json:"worker"`
-	Runs      int               `json:"runs"`
-	Evals     int               `json:"evals"`
-	Decisions int               `json:"decisions"`
-	Seams     int               `json:"seams"`
-	SimSeconds float64          `json:"sim_seconds"`
-	WallS     float64           `json:"wall_s"`
-	Fired     map[string]int    `json:"fired"`
-	Probes    map[string]int    `json:"probes"`
-	Distinct  []uint64          `json:"distinct"`
-	Scheds    []uint64          `json:"scheds"`
-	Samples   []any             `json:"samples"`
-	Viol      []WorkerViolation `json:"violations"`
-	Known     map[string]int    `json:"known"`
-	KnownWhat map[string]string `json:"known_what"`
-	Infra     []string          `json:"infra"`
-	Inconclusive int            `json:"inconclusive"`
-	Exhausted bool              `json:"exhausted"`
-	FirstSeed uint64            `json:"first_seed"`
-	LastSeed  uint64            `json:"last_seed"`
-	MinimiseExecs int           `json:"minimise_execs"`
-	Tagged    map[string][]uint64 `json:"tagged,omitempty"`
-	TraceHash string            `json:"trace_hash,omitempty"`
+	Property      string              `json:"property"`
+	Worker        int                 `json:"worker"`
+	Runs          int                 `json:"runs"`
+	Evals         int                 `json:"evals"`
+	Decisions     int                 `json:"decisions"`
+	Seams         int                 `json:"seams"`
+	SimSeconds    float64             `json:"sim_seconds"`
+	WallS         float64             `json:"wall_s"`
+	Fired         map[string]int      `json:"fired"`
+	Probes        map[string]int      `json:"probes"`
+	Distinct      []uint64            `json:"distinct"`
+	Scheds        []uint64            `json:"scheds"`
+	Samples       []any               `json:"samples"`
+	Viol          []WorkerViolation   `json:"violations"`
+	Known         map[string]int      `json:"known"`
+	KnownWhat     map[string]string   `json:"known_what"`
+	Infra         []string            `json:"infra"`
+	Inconclusive  int                 `json:"inconclusive"`
+	Exhausted     bool                `json:"exhausted"`
+	FirstSeed     uint64              `json:"first_seed"`
+	LastSeed      uint64              `json:"last_seed"`
+	MinimiseExecs int                 `json:"minimise_execs"`
+	Tagged        map[string][]uint64 `json:"tagged,omitempty"`
+	TraceHash     string              `json:"trace_hash,omitempty"`
 }
 
 func envInt(name string, def int64) int64 {
@@ -224,6 +225,7 @@ func TestWorker(t *testing.T) {
 		replayDir = os.TempDir()
 	}
 	res := &WorkerResult{Property: prop, Worker: worker, Fired: map[string]int{}, Probes: map[string]int{}, Known: map[string]int{}, KnownWhat: map[string]string{}}
+	hungSeen := false
 	distinct := map[uint64]bool{}
 	scheds := map[uint64]bool{}
 	tagged := map[string]map[uint64]bool{}
@@ -247,6 +249,9 @@ func TestWorker(t *testing.T) {
 		plan := sc.Gen(NewRng(seed), tier, n)
 		plan.Property, plan.Seed = prop, seed
 		out := sc.Run(t, plan)
+		if out.Hung {
+			hungSeen = true
+		}
 		res.Runs++
 		if wantTrace {
 			fmt.Fprintf(traceHash, "run %d seed %d sched %s\n", n, seed, out.SchedHash)
@@ -298,6 +303,9 @@ func TestWorker(t *testing.T) {
 		if len(res.Samples) < 2 && out.Sample != nil {
 			res.Samples = append(res.Samples, out.Sample)
 		}
+		if out.Hung && len(out.Viol) == 0 {
+			out.Infra = append(out.Infra, "execution hung (wall-clock hang limit)")
+		}
 		if len(out.Infra) > 0 {
 			res.Infra = append(res.Infra, fmt.Sprintf("run %d seed %d: %s", n, seed, strings.Join(out.Infra, "; ")))
 			writeJSON(filepath.Join(replayDir, fmt.Sprintf("%s-infra-%d.json", prop, seed)), &ReplayFile{Property: prop, Seed: seed, RunNo: n, Tier: tier, Plan: plan, Events: out.Events})
@@ -315,6 +323,13 @@ func TestWorker(t *testing.T) {
 				plan.Property, plan.Seed = prop, seed
 			}
 			orig := plan.Clone()
+			if out.Hung {
+				// no minimisation (every re-execution would cost the hang limit and leak more goroutines); report and stop
+				path := filepath.Join(replayDir, fmt.Sprintf("%s-%d.json", prop, seed))
+				writeJSON(path, &ReplayFile{Property: prop, Seed: seed, RunNo: n, Tier: tier, Violation: *v, Plan: plan, Events: out.Events})
+				res.Viol = append(res.Viol, WorkerViolation{Violation: *v, Replay: path, RunNo: n, Seed: seed})
+				break
+			}
 			minPlan, minOut, execs := minimise(t, sc, plan, *v)
 			res.MinimiseExecs += execs
 			mv, _ := firstNew(minOut, prop)
@@ -351,6 +366,9 @@ func TestWorker(t *testing.T) {
 	sort.Slice(res.Scheds, func(i, j int) bool { return res.Scheds[i] < res.Scheds[j] })
 	if outPath != "" {
 		writeJSON(outPath, res)
+		if hungSeen {
+			os.Exit(0) // goroutines of the hung execution are still stuck; do not let the test framework wait for them
+		}
 	} else {
 		b, _ := json.MarshalIndent(res, "", " ")
 		fmt.Println(string(b))
@@ -407,6 +425,9 @@ func replayMain(t *testing.T, sc *Scenario, path string) {
 		}
 	}
 	switch {
+	case same && out.Hung:
+		fmt.Println("REPLAY reproduced the hang")
+		os.Exit(1)
 	case same && evSame:
 		fmt.Println("REPLAY reproduced exactly (same violation, same event log)")
 		os.Exit(1)
